@@ -113,6 +113,9 @@ pub struct Faults {
     pub self_wake_permille: u32,
     /// gate open / stream push calls each waker twice
     pub dup_wake_permille: u32,
+    /// an input stream keeps the waker of a poll that returned an item (like a merged stream whose other arm is silent)
+    #[serde(default)]
+    pub keep_waker_permille: u32,
 }
 
 #[derive(Clone, Debug, Serialize, Deserialize, PartialEq)]
